@@ -6,6 +6,7 @@
 import MW.Model.Import
 import MW.Spec.Chain
 import MW.Lemmas.ImportPlan
+import MW.Lemmas.LedgerStatus
 namespace MW.Props.C07
 open MW MW.Model.Ledger MW.Model.Import MW.Lemmas.ImportPlan
 
@@ -333,6 +334,69 @@ theorem not_selectable_until_done (batch : Nat) (c : Ctx) (w : Wid) (s : Store) 
   · have hmem : w ∈ c.wallets := by simpa using hks
     simp [statusAfter, hreach, hwseq, hnr, hmem]
   · simp [statusAfter, hreach]
+
+/-- worker batches interleaved with tip notifications that extend the follower's chain (the reorganisation path of
+    processBlock is not covered here: see `import_exact_full`) -/
+inductive Ev2
+  | batch
+  | extend (b : Block)
+
+/-- one event; the flag records whether a batch has reported `finish` so far.  A failed batch changes nothing; a
+    notification that does not extend the follower's tip is not handled by this restricted semantics. -/
+def stepEv2 (batch : Nat) (c : Ctx) (w : Wid) (st : Store × Vol × Bool) : Ev2 → Store × Vol × Bool
+  | .batch =>
+    match importStep batch c w st.1 st.2.1 with
+    | .ok (s', v', fin) => (s', v', st.2.2 || fin)
+    | .error _ => st
+  | .extend b =>
+    if b.prev = st.2.1.best.hash then
+      let r := processBlock c st.1 st.2.1 b
+      (r.1, r.2.1, st.2.2)
+    else st
+
+/-- **not_selectable_until_done (batches and tip extensions).** For every interleaving of rescan batches (of any
+    size, successful or not) with tip notifications extending the follower's chain: as long as no batch has
+    reported `finish`, the wallet is still importing and UseWallet refuses it. -/
+theorem not_selectable_across_extensions (batch : Nat) (c : Ctx) (w : Wid) (evs : List Ev2) (s : Store) (v : Vol)
+    (ws : WStatus) (cur : Nat) (hws : AMap.get s.status w = some ws) (hcur : ws.synced = some cur) :
+    let r := evs.foldl (stepEv2 batch c w) (s, v, false)
+    r.2.2 = false → useWallet r.1 c.wallets w = .unready := by
+  have key : ∀ (evs : List Ev2) (st : Store × Vol × Bool),
+      (st.2.2 = false → ∃ ws cur, AMap.get st.1.status w = some ws ∧ ws.synced = some cur) →
+      ((evs.foldl (stepEv2 batch c w) st).2.2 = false →
+        ∃ ws cur, AMap.get (evs.foldl (stepEv2 batch c w) st).1.status w = some ws ∧ ws.synced = some cur) := by
+    intro evs
+    induction evs with
+    | nil => intro st h; exact h
+    | cons e evs ih =>
+      intro st hst
+      simp only [List.foldl_cons]
+      apply ih
+      intro hflag
+      cases e with
+      | batch =>
+        unfold stepEv2 at hflag ⊢
+        cases hstep : importStep batch c w st.1 st.2.1 with
+        | error e => simp only [hstep] at hflag ⊢; exact hst hflag
+        | ok r =>
+          obtain ⟨s', v', fin⟩ := r
+          simp only [hstep] at hflag ⊢
+          simp only [Bool.or_eq_false_iff] at hflag
+          obtain ⟨hd, hok⟩ := importStep_ok batch c w st.1 st.2.1 s' v' fin hstep
+          have hne : hd.stop ≠ hd.best := by
+            have := hok.fin; rw [hflag.2] at this; simpa using this
+          exact ⟨statusAfter hd.ws hd.stop hd.best, hd.stop, hok.status, by simp [statusAfter, hne]⟩
+      | extend b =>
+        unfold stepEv2 at hflag ⊢
+        by_cases hext : b.prev = st.2.1.best.hash
+        · simp only [hext, if_true] at hflag ⊢
+          rw [Lemmas.LedgerStatus.processBlock_extend_status c st.1 st.2.1 b hext]
+          exact hst hflag
+        · simp only [hext, if_false] at hflag ⊢
+          exact hst hflag
+  intro r hr
+  obtain ⟨ws', cur', h1, h2⟩ := key evs (s, v, false) (fun _ => ⟨ws, cur, hws, hcur⟩) hr
+  exact importing_refused _ _ w ws' cur' h1 h2
 
 /-- the status part of disconnectBlock (ntfnshandler.go, copied by MW.Model.Ledger.disconnectBlock): every wallet
     that is not ready has its cursor pulled back to `height − 1` -/
